@@ -447,6 +447,10 @@ def run(ctx):
     rule_memo(ctx, r3, wrapper_name)
     r4 = ctx.rule("R4", "the cone is the requested patterns (default all endpoints); patterns expand identically everywhere", min_instances=4)
     rule_cone_selection(ctx, r4)
+    from .shared import rule_targets_argument, rule_flag_default, rule_calls_bind
+    rule_calls_bind(ctx, r4, ("gwf.plugins.run", "gwf.scheduling"))
+    rule_targets_argument(ctx, r4, "gwf.plugins.run:run", "`gwf run [NAMES]`")
+    rule_flag_default(ctx, r4, "gwf.plugins.run:run", "--dry-run", "`gwf run` would never submit anything")
     r5 = ctx.rule("R5", "prerequisite targets are translated to the tracked job ids by name, all of them", min_instances=2)
     rule_id_lookup(ctx, r5)
     from .schedmodel import cluster_witness
